@@ -83,12 +83,19 @@ const NAMES: &[&str] = &["foo", "Foo", "a", "A", "_x", "x1", "getUser", "GetUser
     "user_by_id", "F", "f", "Frag", "frag", "Query", "query", "Z9", "__a"];
 
 fn render_sel(on_root: bool, spreads: &[String], rng: &mut Rng) -> String {
-    // selections valid against SCHEMA: root types and U all have `u: U`; `a` on roots, `id name` on U
+    // selections valid against SCHEMA: root types and U all have `u: U`; `a` on roots, `id name` on U.
+    // Exactly one root field (a subscription must have exactly one).
     let mut s = String::from("{ ");
-    if on_root { s.push_str(if rng.chance(1, 2) { "a " } else { "u { id } " }); } else { s.push_str(if rng.chance(1, 2) { "id " } else { "name id " }); }
-    for sp in spreads {
-        // fragments are all `on U`; both the root types and U have `u: U`
-        let _ = write!(s, "u {{ ...{} }} ", sp);
+    if on_root {
+        if spreads.is_empty() { s.push_str(if rng.chance(1, 2) { "a " } else { "u { id } " }); }
+        else {
+            s.push_str("u { id ");
+            for sp in spreads { let _ = write!(s, "...{} ", sp); }
+            s.push_str("} ");
+        }
+    } else {
+        s.push_str(if rng.chance(1, 2) { "id " } else { "name id " });
+        for sp in spreads { let _ = write!(s, "u {{ ...{} }} ", sp); }
     }
     s.push('}');
     s
@@ -145,8 +152,17 @@ struct Project {
 }
 
 fn gen_project(rng: &mut Rng, id: usize) -> Project {
-    // names: a small pool so that collisions between kinds and across files do happen
-    let pick_name = |rng: &mut Rng| -> String { rng.pick(NAMES).to_string() };
+    // names: a small pool so that collisions between kinds and across files do happen. Most projects respect
+    // GraphQL's uniqueness rules (distinct fragment names, distinct operation names); some do not.
+    let allow_dup = rng.chance(1, 7);
+    let used: std::cell::RefCell<Vec<String>> = std::cell::RefCell::new(vec![]);
+    let pick_name = |rng: &mut Rng| -> String {
+        loop {
+            let n = rng.pick(NAMES).to_string();
+            // one namespace for simplicity: a fragment and an operation may still collide after suffixing/capitalising
+            if allow_dup || !used.borrow().contains(&n) { used.borrow_mut().push(n.clone()); return n; }
+        }
+    };
     let n_files = *rng.pick(&[1usize, 1, 2, 2, 3]);
     let via_resolver = rng.chance(1, 2);
     let mut file_idxs: Vec<usize> = vec![];
@@ -190,7 +206,7 @@ fn gen_project(rng: &mut Rng, id: usize) -> Project {
     let mut ops = vec![];
     for _ in 0..n_ops {
         let kind = *rng.pick(&["query", "query", "mutation", "subscription"]);
-        let name = if rng.chance(1, 5) { None } else { Some(pick_name(rng)) };
+        let name = if (allow_dup || n_ops == 1) && rng.chance(1, 4) { None } else { Some(pick_name(rng)) };
         let mut spreads = vec![];
         if !available.is_empty() && rng.chance(1, 2) { spreads.push(rng.pick(&available).clone()); }
         ops.push(DefSpec::Op { kind, name, spreads, var: rng.chance(1, 4) });
@@ -260,6 +276,76 @@ fn gen_project(rng: &mut Rng, id: usize) -> Project {
     });
     let sources = (0..n_files).map(|fi| (if fi == 0 { "main.graphql".to_string() } else { format!("f{}.graphql", fi) }, srcs[fi])).collect();
     Project { descr, via_resolver, sources, doc, doc_l }
+}
+
+/// A project given by its sources (first = main file; imports are written in the main source): the corpus.
+fn project_from_sources(id: usize, label: &str, sources: &[(&str, &str)]) -> Project {
+    let srcs: Vec<&'static str> = sources.iter().map(|(_, t)| leak(t.to_string())).collect();
+    let paths: Vec<String> = sources.iter().map(|(n, _)| format!("/p/{}", n)).collect();
+    let build = |idx_of: &dyn Fn(usize) -> usize| -> OperationDocument<'static> {
+        let parsed: Vec<(String, Parsed)> = (0..srcs.len()).map(|fi| (paths[fi].clone(), parse_file(srcs[fi], idx_of(fi)))).collect();
+        let (_, main) = &parsed[0];
+        resolve_operation_imports((Path::new(&paths[0]), &main.doc, &main.ext), &Resolver(&parsed[1..])).expect("imports resolve")
+    };
+    let doc = build(&|fi| fi + 1);
+    let doc_l = build(&|_| 0);
+    let descr = json!({
+        "project": id, "via": "resolve_operation_imports", "corpus": label,
+        "files": (0..srcs.len()).map(|fi| json!({"path": paths[fi], "file_index": fi + 1, "source": srcs[fi]})).collect::<Vec<_>>(),
+    });
+    let sources = sources.iter().zip(srcs.iter()).map(|((n, _), t)| (n.to_string(), *t)).collect();
+    Project { descr, via_resolver: true, sources, doc, doc_l }
+}
+
+/// minimised witnesses of past findings (also stored, for readers, in /verif/corpus/C14/*.json); always run first
+fn corpus_projects() -> Vec<(Project, Vec<CfgT>)> {
+    let named = Some(GenT { mode: None, name: None, export: Some(ExportT { default: Some(false), result: None, vars: None }) });
+    vec![
+        (project_from_sources(0, "colliding-variable-names/operation-vs-fragment",
+            &[("main.graphql", "query Foo { a u { ...FooQuery } }\nfragment FooQuery on U { id }\n")]),
+         vec![None, named.clone()]),
+        (project_from_sources(1, "colliding-variable-names/capitalisation",
+            &[("main.graphql", "query foo { a }\nquery Foo { a }\n")]),
+         vec![named.clone(), None]),
+        (project_from_sources(2, "colliding-variable-names/imported-fragment-vs-operation",
+            &[("main.graphql", "#import UserQuery from \"./f1.graphql\"\nquery User { u { ...UserQuery } }\n"),
+              ("f1.graphql", "fragment UserQuery on U { id }\n")]),
+         vec![None, named]),
+    ]
+}
+
+/// names read off an op list the way the Coq side does (used only to describe a case / to classify it narrowly)
+fn op_level_names(ops: &[Wop]) -> (Vec<String>, Vec<String>, Vec<String>) {
+    let (mut decls, mut named, mut dflt) = (vec![], vec![], vec![]);
+    let mut i = 0;
+    while i < ops.len() {
+        if is_w(ops.get(i), "export ") && is_w(ops.get(i + 1), "const ") {
+            if let Some(Wop::WF(n, _, _)) = ops.get(i + 2) { decls.push(n.clone()); named.push(n.clone()); i += 3; continue; }
+        }
+        if is_w(ops.get(i), "const ") {
+            if let Some(Wop::WF(n, _, _)) = ops.get(i + 1) { decls.push(n.clone()); i += 2; continue; }
+        }
+        if is_w(ops.get(i), "export { ") && is_w(ops.get(i + 2), " as default };\n\n") {
+            if let Some(Wop::W(n)) = ops.get(i + 1) { dflt.push(n.clone()); i += 3; continue; }
+        }
+        i += 1;
+    }
+    (decls, named, dflt)
+}
+fn duplicates(v: &[String]) -> Vec<String> {
+    let mut d = vec![];
+    for (i, x) in v.iter().enumerate() { if v[..i].contains(x) && !d.contains(x) { d.push(x.clone()); } }
+    d
+}
+
+const JS_RESERVED: &[&str] = &["break", "case", "catch", "class", "const", "continue", "debugger", "default", "delete", "do", "else",
+    "enum", "export", "extends", "false", "finally", "for", "function", "if", "import", "in", "instanceof", "new", "null", "return",
+    "super", "switch", "this", "throw", "true", "try", "typeof", "var", "void", "while", "with", "yield", "let", "static",
+    "implements", "interface", "package", "private", "protected", "public", "await", "async", "of", "get", "set", "arguments", "eval"];
+fn is_plain_identifier(s: &str) -> bool {
+    let mut cs = s.chars();
+    match cs.next() { Some(c) if c.is_ascii_alphabetic() || c == '_' || c == '$' => {} _ => return false }
+    cs.all(|c| c.is_ascii_alphanumeric() || c == '_' || c == '$') && !JS_RESERVED.contains(&s)
 }
 
 fn coq_doc(d: &OperationDocument) -> String {
@@ -452,8 +538,12 @@ fn cli_generate(cli: &str, dir: &Path, pr: &Project, cfg_text: &str, format: &st
     let out = std::process::Command::new(cli)
         .current_dir(dir)
         .args(["--config-file", cfg_name, "--schema", "./schema/*.graphql", "--operation", "./src/*.graphql",
-               "--schema-output", "./src/generated/schema.d.ts", "generate"])
+               "--schema-output", "./src/generated/schema.ts", "generate"])
         .output().ok()?;
+    if !out.status.success() && std::env::var("C14_DEBUG").is_ok() {
+        eprintln!("CLI rejected: {}\n{}\n---\n{}", String::from_utf8_lossy(&out.stderr), String::from_utf8_lossy(&out.stdout),
+            pr.sources.iter().map(|(n, t)| format!("== {}\n{}", n, t)).collect::<Vec<_>>().join("\n"));
+    }
     let res = if out.status.success() {
         let ext = match mode { Some(1) => "graphql.d.ts", Some(2) => "graphql.ts", _ => "d.graphql.ts" };
         fs::read_to_string(dir.join("src").join(format!("main.{}", ext))).ok()
@@ -550,7 +640,7 @@ fn coq_ops(ops: &[Wop], named_seqs: &[(String, &Vec<Wop>)], named_strs: &[(Strin
 
 // ------------------------------------------------------------------ main
 
-struct CaseOut { term: String, descr: Value, project: usize }
+struct CaseOut { term: String, descr: Value, project: usize, node_file: Option<String> }
 
 fn main() {
     silence_panics();
@@ -558,8 +648,12 @@ fn main() {
     let mut rng = Rng::new(args.seed);
     let thorough = args.tier == "thorough";
     let cli: Option<String> = args.extra.iter().position(|a| a == "--cli").and_then(|i| args.extra.get(i + 1)).cloned();
-    let mut e2e_budget: usize = if cli.is_none() { 0 } else if thorough { 1500 } else { 160 };
+    let mut e2e_budget: usize = if cli.is_none() { 0 } else if thorough { 1500 } else { 250 };
     let e2e_dir = args.out.join("e2e-scratch");
+    let node: Option<String> = args.extra.iter().position(|a| a == "--node").and_then(|i| args.extra.get(i + 1)).cloned();
+    let node_dir = args.out.join("node-modules-under-test");
+    if node.is_some() { let _ = fs::remove_dir_all(&node_dir); fs::create_dir_all(&node_dir).unwrap(); }
+    let mut node_budget: usize = if node.is_none() { 0 } else if thorough { 3000 } else { 400 };
 
     let schema_doc = {
         let doc = parse_type_system_document(SCHEMA).expect("schema parses");
@@ -575,8 +669,11 @@ fn main() {
     let mut dist: BTreeMap<String, u64> = BTreeMap::new();
     let bump = |k: &str, dist: &mut BTreeMap<String, u64>| { *dist.entry(k.to_string()).or_insert(0) += 1; };
 
-    for pid in 0..n_projects {
-        let pr = gen_project(&mut rng, pid);
+    let mut corpus: Vec<Option<(Project, Vec<CfgT>)>> = corpus_projects().into_iter().map(Some).collect();
+    let n_corpus = corpus.len();
+    for pid in 0..(n_corpus + n_projects) {
+        let (pr, fixed_cfgs) = if pid < n_corpus { let (p, c) = corpus[pid].take().unwrap(); (p, Some(c)) }
+                               else { (gen_project(&mut rng, pid), None) };
         let n_ops = pr.doc.definitions.iter().filter(|d| matches!(d, ExecutableDefinition::OperationDefinition(_))).count();
         let n_frag = pr.doc.definitions.len() - n_ops;
         let n_imported = pr.doc.definitions.iter().filter(|d| d.position().file != pr.doc.position.file).count();
@@ -612,7 +709,9 @@ fn main() {
 
         // configurations for this project
         let mut cfgs: Vec<CfgT> = vec![];
-        if thorough {
+        if let Some(fc) = &fixed_cfgs {
+            cfgs = fc.clone();
+        } else if thorough {
             // the full product of the four tri-state booleans and the four mode states
             for code in 0..(81 * 4) {
                 let d = [code % 3, (code / 3) % 3, (code / 9) % 3, (code / 27) % 3];
@@ -674,6 +773,20 @@ fn main() {
                     None => { bump("e2e_cli_rejected_project(check)", &mut dist); }
                 }
             }
+            let (js_decls, js_named, js_dflt) = op_level_names(&js_l);
+            let (_, dts_named, dts_dflt) = op_level_names(&dts);
+            let dups = duplicates(&js_decls);
+            if !dups.is_empty() { bump("cases_with_colliding_variable_names", &mut dist); }
+            // a share of the loader's modules is really loaded by node (runtime oracle), when every binding is a plain identifier
+            let mut node_file = None;
+            if node_budget > 0 && (fixed_cfgs.is_some() || rng.chance(1, 3)) {
+                if js_decls.iter().all(|n| is_plain_identifier(n)) {
+                    node_budget -= 1;
+                    let f = node_dir.join(format!("m{}.mjs", cases.len()));
+                    fs::write(&f, &tjs_l).unwrap();
+                    node_file = Some(f.to_str().unwrap().to_string());
+                } else { bump("node_skipped_not_plain_identifiers", &mut dist); }
+            }
             let term = format!("Case {p}_doc {p}_docL {p}_B {p}_ids {} {} {} {} {} {} {} {}",
                 coq_cfg(&cfg), coq_ops(&dts, &named_seqs, &named_strs), coq_ops(&js, &named_seqs, &named_strs),
                 coq_ops(&js_l, &named_seqs, &named_strs), coq_bool(text_safe), coq_text_exports(&te_dts), coq_text_exports(&te_js), coq_opt(&te_cli, coq_text_exports));
@@ -694,12 +807,48 @@ fn main() {
                     "loader_js_text_head": if thorough { Value::Null } else { json!(tjs_l.chars().take(400).collect::<String>()) },
                     "dts_exports_from_text": {"named": te_dts.0, "default": te_dts.1},
                     "js_exports_from_text": {"named": te_js.0, "default": te_js.1},
-                    "cli_dts_exports_from_text": te_cli.as_ref().map(|t| json!({"named": t.0, "default": t.1}))}),
-                project: pid,
+                    "cli_dts_exports_from_text": te_cli.as_ref().map(|t| json!({"named": t.0, "default": t.1})),
+                    "op_level": {"dts_named": dts_named, "dts_default": dts_dflt, "js_named": js_named, "js_default": js_dflt,
+                                 "js_declared": js_decls, "js_duplicate_bindings": dups}}),
+                project: pid, node_file,
             });
         }
         preludes.push(prelude);
     }
+
+    // ---- runtime oracle: one node process imports every module written above and reports its export names
+    let mut node_results: BTreeMap<String, Value> = BTreeMap::new();
+    if let Some(node) = &node {
+        let files: Vec<String> = cases.iter().filter_map(|c| c.node_file.clone()).collect();
+        if !files.is_empty() {
+            let script = node_dir.join("run.mjs");
+            fs::write(&script, "import { pathToFileURL } from 'node:url';\nimport { readFileSync } from 'node:fs';\nconst out = {};\nfor (const f of JSON.parse(readFileSync(process.argv[2], 'utf8'))) {\n  try { const m = await import(pathToFileURL(f).href); out[f] = { ok: true, exports: Object.keys(m) }; }\n  catch (e) { out[f] = { ok: false, error: String(e) }; }\n}\nconsole.log(JSON.stringify(out));\n").unwrap();
+            let list = node_dir.join("files.json");
+            fs::write(&list, serde_json::to_string(&files).unwrap()).unwrap();
+            if let Ok(o) = std::process::Command::new(node).arg(&script).arg(&list).output() {
+                if let Ok(Value::Object(m)) = serde_json::from_slice::<Value>(&o.stdout) { for (k, v) in m { node_results.insert(k, v); } }
+            }
+        }
+    }
+    for c in cases.iter_mut() {
+        let field = match c.node_file.as_ref().and_then(|f| node_results.get(f)) {
+            None => "None".to_string(),
+            Some(r) if r["ok"] == json!(true) => {
+                let keys: Vec<String> = r["exports"].as_array().map(|a| a.iter().filter_map(|x| x.as_str().map(|s| s.to_string())).collect()).unwrap_or_default();
+                *dist.entry("node_module_loaded".into()).or_insert(0) += 1;
+                c.descr["node"] = json!({"loaded": true, "exports": keys});
+                format!("(Some (Some {}))", coq_list(&keys, |s| coq_str(s)))
+            }
+            Some(r) => {
+                *dist.entry("node_module_failed_to_load".into()).or_insert(0) += 1;
+                c.descr["node"] = json!({"loaded": false, "error": r["error"]});
+                "(Some None)".to_string()
+            }
+        };
+        c.term.push(' ');
+        c.term.push_str(&field);
+    }
+    if node.is_some() { let _ = fs::remove_dir_all(&node_dir); }
 
     // ---- write shards: each shard carries the prelude of the projects it mentions
     let out = &args.out;
